@@ -27,8 +27,33 @@ import z3
 
 from exo.core.LoopIR import LoopIR, T
 
+from .common import simple_rational
+
 # ---------------------------------------------------------------------------
 # helpers
+
+
+def const_value(e):
+    """value of a data expression built from literals only, computed in IEEE double the way the compiler's
+    own constant folder (and a C compiler) computes it; None when e is not a constant expression.  Literal
+    rounding is outside every claim, so both sides of a comparison must fold constants the same way."""
+    if isinstance(e, LoopIR.Const):
+        if isinstance(e.val, bool):
+            return None
+        return float(e.val)
+    if isinstance(e, LoopIR.USub):
+        v = const_value(e.arg)
+        return None if v is None else -v
+    if isinstance(e, LoopIR.BinOp) and e.op in ("+", "-", "*", "/"):
+        a = const_value(e.lhs)
+        b = const_value(e.rhs)
+        if a is None or b is None:
+            return None
+        try:
+            return {"+": a + b, "-": a - b, "*": a * b}[e.op] if e.op != "/" else a / b
+        except (ZeroDivisionError, OverflowError):
+            return None
+    return None
 
 
 class Unsupported(Exception):
@@ -419,7 +444,7 @@ class SymExec:
             if isinstance(v, bool):
                 raise Unsupported("bool const as data")
             # literals denote their shortest round-trip decimal (0.1 is 1/10), on both sides of every comparison
-            fr = Fraction(repr(v)) if isinstance(v, float) else Fraction(v)
+            fr = simple_rational(v) if isinstance(v, float) else Fraction(v)
             return z3.RealVal(fr), True
         if isinstance(e, LoopIR.Read):
             v = env[e.name]
@@ -1051,7 +1076,7 @@ class ConcExec:
 
     def data(self, e, env):
         if isinstance(e, LoopIR.Const):
-            return Fraction(repr(e.val)) if isinstance(e.val, float) else Fraction(e.val)
+            return simple_rational(e.val) if isinstance(e.val, float) else Fraction(e.val)
         if isinstance(e, LoopIR.Read):
             v = env[e.name]
             if not isinstance(v, CRef):
